@@ -21,6 +21,7 @@ http = "1"
 bytes = "1"
 futures = {{ version = "0.3", default-features = false, features = ["std"] }}
 http-body-util = "0.1"
+http-body = "1"
 serde_json = "1"
 async-trait = "0.1"
 hmac = "=0.13.0-pre.5"
